@@ -20,7 +20,7 @@ LEVEL = "proof"
 
 NASTY = [b"a b", b"q\"uote", b"back\\slash", b"tab\there", b"\xff\xfe\xfd", b"caf\xc3\xa9", b"\xe2\x88\x9e", b"[1]", b"x|y", b"*star*",
          b"(paren)", b"semi;colon", b"new\nline", b"\x01\x02ctl", b"l" * 300, b"trailing ", b" leading", b"'single'", b"#hash", b"$var",
-         b"^{tree}", b"a:b", b"..", b"@{0}", b"\x7f"]
+         b"^{tree}", b"a:b", b"..", b"@{0}", b"\x7f", b"100%_done", b"a%sb%d", b"%%", b"%!s(MISSING)", b"{0}", b"\\n"]
 
 
 def gen_named(rng, lf_ok=True, force=None):
@@ -42,7 +42,8 @@ def gen_named(rng, lf_ok=True, force=None):
     g2 = s.add({"kind": "tag", "target": g, "name": b"v2"})
     s.refs.append((rng.choice([b"refs/heads/main", b"refs/heads/caf\xc3\xa9", b"refs/heads/q\"uote", b"refs/heads/a'b", b"refs/heads/\xff\xfe",
                                b"refs/heads/" + b"n" * 200, b"refs/heads/wide\xc2\xa0name", b"refs/heads/ls\xe2\x80\xa8sep",
-                               b"refs/heads/ideo\xe3\x80\x80space", b"refs/heads/nel\xc2\x85x", b"refs/heads/en\xe2\x80\x82quad"]), c2))
+                               b"refs/heads/ideo\xe3\x80\x80space", b"refs/heads/nel\xc2\x85x", b"refs/heads/en\xe2\x80\x82quad",
+                               b"refs/heads/rel-50%stable", b"refs/heads/%d%s%v"]), c2))
     if rng.random() < 0.3:
         s.refs.append((rng.choice([b"refs/tags/thin\xe2\x80\x89sp", b"refs/notes/nb\xc2\xa0sp", b"refs/remotes/o/fig\xe2\x80\x87sp"]), c))
     s.refs.append((b"refs/tags/v2", g2))
